@@ -48,6 +48,26 @@ ALLOWED_AXIOMS = [
     "ClassicalDedekindReals.sig_forall_dec",
     "FunctionalExtensionality.functional_extensionality_dep",
 ]
+# Translation validation: the unique-column-name loop of Phenotypes.write (the statements from `uniq_names = Counter()` to
+# just before the 2D-shape check) is regenerated from the current source on every run (harness/pytrans.py ->
+# HVG.Gen_Phenotypes) and proved equal to C15_Model.unique_names for all name tuples (coq/translated/TV_C15.v).
+TRANSLATION = {
+    "spec": {
+        "module": "Gen_Phenotypes",
+        "text": True,    # names are strings by code points; the f-string is interpreted (str(int) = Coq's decimal printer)
+        "functions": [
+            ("haptools/data/phenotypes.py", "write", {
+                "name": "write_unique_names", "top": True, "in_class": "Phenotypes",
+                "start": {"assign": "uniq_names"}, "stop": {"before_if_raise": True},
+                "params": ["self_names"], "result": "names",
+                # self.names is read (twice) and nothing in the slice can change it: a by-value parameter
+                "self_attrs": {"names": "self_names"},
+                "class_chain": [("haptools/data/phenotypes.py", "Phenotypes"), ("haptools/data/data.py", "Data")]}),
+        ],
+    },
+    "models": ["TVM_C15"],
+    "proofs": ["TV_C15"],
+}
 RULE = (
     "roundtrip: non-trivial = the table holds a value of a boundary bit-pattern class (subnormal, +-0, 2^k/10^k +- 1 ulp, "
     "1e+-300, >= 2^53, 17 significant digits, mixed magnitudes in one row), or the name multiset has a collision, or the "
@@ -1683,7 +1703,87 @@ def canon_json(t):
     return json.dumps(t, sort_keys=True)
 
 
-RELATIONS = [RoundTrip(), Read(), Standardize(), Ops(), OpSeq()]
+class TVNames(RoundTrip):
+    """The name tuples of the roundtrip relation (same generator, same exhaustive 780 tuples over {a, a-1, a-2, a-1-1, b}),
+    with the unique-name loop of Phenotypes.write evaluated from the MiniPy syntax regenerated from the current source:
+    agree = the interpreted slice computes the column names Phenotypes.write put into the header line.  Validates the
+    translator and the interpreter (Counter, set, enumerate, the f-string, str(int)) against the real code; holds is
+    checked by the roundtrip relation."""
+    name = "tv_names"
+    coq_lib = "HVG"
+    coq_module = "TVM_C15"
+    coq_check = "check_tv_names"
+    coq_case_type = "tvncase"
+    coq_model = "tv_model_names"
+    coq_imports = ["Stats", "C15_Model", "C15_Check"]
+    budget = _bud(300, 6000)
+    max_cases_per_shard = 150
+    anchors = [("haptools/data/phenotypes.py", "Phenotypes.write")]
+
+    def generate(self, rng, n, tier):
+        out = []
+        for c in super().generate(rng, n, tier):
+            m = len(c["names"])
+            # only the names matter here: one sample, cells 0.0 (the wide / many-duplicate name tuples are kept)
+            out.append({"cls": c["cls"], "gz": False, "names": c["names"], "samples": ["s1"], "data": [[0] * m],
+                        "classes": [x for x in c.get("classes", []) if x.startswith("names:")],
+                        "klass": c.get("klass", "small")})
+        return out
+
+    def run_impl(self, inp):
+        d = tempfile.mkdtemp(prefix="hv_c15_")
+        try:
+            fn = os.path.join(d, "t" + (".covar" if inp["cls"] == "C" else ".pheno"))
+            try:
+                p = new_obj(inp["cls"], fn, quiet_logger())
+                p.names = tuple(inp["names"])
+                p.samples = tuple(inp["samples"])
+                p.data = np.array(inp["data"], dtype="uint64").view("float64").reshape(1, len(inp["names"]))
+                p.write()
+                with open(fn, newline="") as f:
+                    header = f.readline()
+                if not header.endswith("\n") or not header.startswith("#IID\t"):
+                    return {"err": 97, "cls": "Unobserved", "msg": "header line not of the form #IID<TAB>names"}
+                return {"ok": {"names": header[:-1].split("\t")[1:]}}
+            except Exception as e:  # noqa
+                return {"err": err_kind(e), "cls": type(e).__name__, "msg": str(e)[:200]}
+        finally:
+            shutil.rmtree(d, ignore_errors=True)
+
+    def encode(self, inp, obs):
+        if "ok" in obs:
+            ot = f"(Ok {names_term(obs['ok']['names'])})"
+        else:
+            ot = f"(Err {L.z(obs.get('err', obs.get('kind', 99)))})"
+        return f"(mktvn {names_term(inp['names'])} {ot})"
+
+    def shrink(self, inp):
+        m = len(inp["names"])
+        if m > 40:
+            k = m // 2
+            while k >= 1:
+                yield dict(inp, names=inp["names"][: m - k], data=[[0] * (m - k)])
+                yield dict(inp, names=inp["names"][k:], data=[[0] * (m - k)])
+                k //= 2
+        else:
+            for j in range(m):
+                if m > 1:
+                    yield dict(inp, names=inp["names"][:j] + inp["names"][j + 1:], data=[[0] * (m - 1)])
+        if inp["cls"] == "C":
+            yield dict(inp, cls="P")
+
+    def mutate(self, inp, rng):
+        for k in range(10):
+            names = [str(rng.choice(NAME_POOL)) for _ in inp["names"]]
+            yield dict(inp, names=names)
+
+    def signature(self, inp, obs):
+        if "ok" not in obs:
+            return f"tv_names write raised {obs.get('cls', obs.get('__exc__', '?'))}"
+        return "tv_names: the translated unique-name loop and Phenotypes.write disagree on the written column names"
+
+
+RELATIONS = [RoundTrip(), Read(), Standardize(), Ops(), OpSeq(), TVNames()]
 
 LEVEL_TEXT = (
     "Coq theorems over all name lists, tables and files (no size bound) about a Gallina model of Phenotypes.write's name "
